@@ -906,7 +906,7 @@ func triggerBeforeWaitRule(c *Ctx, rule string) {
 	// Client.doClose: nconn.Close() before reader.close()
 	if fn := p.Func("", "Client.doClose"); r.Anchor(rule, "Client.doClose", fn != nil) {
 		rc := findCall(fn, func(c *ssa.Call) bool {
-			return c.Call.StaticCallee() != nil && c.Call.StaticCallee().Name() == "close" && strings.Contains(fnShort(c.Call.StaticCallee()), "clientReader")
+			return c.Call.StaticCallee() != nil && core.FnName(c.Call.StaticCallee()) == "close" && strings.Contains(fnShort(c.Call.StaticCallee()), "clientReader")
 		})
 		if rc == nil {
 			r.Fail(rule, "Client.doClose joins its reader", p.Pos(fn.Pos()), "reader.close() not found")
@@ -964,7 +964,7 @@ func clientCloseRule(c *Ctx, rule string) {
 	mclose := false
 	for _, b := range fn.Blocks {
 		for _, in := range b.Instrs {
-			if ci, ok := in.(*ssa.Call); ok && ci.Call.StaticCallee() != nil && ci.Call.StaticCallee().Name() == "close" && strings.Contains(fnShort(ci.Call.StaticCallee()), "clientMedia") {
+			if ci, ok := in.(*ssa.Call); ok && ci.Call.StaticCallee() != nil && core.FnName(ci.Call.StaticCallee()) == "close" && strings.Contains(fnShort(ci.Call.StaticCallee()), "clientMedia") {
 				mclose = true
 			}
 		}
